@@ -7,8 +7,8 @@ s = open(ROOT + "/DESIGN.md").read()
 
 def put(name, text):
     global s
-    s = re.sub(r"<!-- BEGIN:%s -->.*?<!-- END:%s -->" % (name, name),
-               "<!-- BEGIN:%s -->\n%s\n<!-- END:%s -->" % (name, text, name), s, flags=re.S)
+    rep = "<!-- BEGIN:%s -->\n%s\n<!-- END:%s -->" % (name, text, name)
+    s = re.sub(r"<!-- BEGIN:%s -->.*?<!-- END:%s -->" % (name, name), lambda m: rep, s, flags=re.S)
 
 f = json.load(open(ROOT + "/known_findings.json"))["findings"]
 rows = ["| property | repair commit | what failed (witness) |", "|---|---|---|"]
